@@ -161,7 +161,7 @@ impl Iterator for InstrIter {
         if j != 0 {
             // a slow source: the thread inside next() holds the dependency's handle while the others
             // wait for it or are only just being spawned (the first pull is slow in half of the runs)
-            let h = ((self.pos as u64) ^ j).wrapping_mul(0x9E37_79B9_7F4A_7C15) >> 58;
+            let h = ((self.pos as u64) ^ j).wrapping_mul(0x9E37_79B9_7F4A_7C15) >> 56; // 1 pull in 256
             if j & 14 == 8 {
                 // one slow position (0..7), everything before it is fast: a worker runs ahead, the
                 // next one reserves the following position and waits, later workers find everything
@@ -170,7 +170,7 @@ impl Iterator for InstrIter {
                     std::thread::sleep(std::time::Duration::from_millis(3));
                 }
             } else if h == 0 || (self.pos <= 1 && j & 2 != 0) || j & 6 == 6 {
-                std::thread::sleep(std::time::Duration::from_micros(300 + 100 * (j % 23)));
+                std::thread::sleep(std::time::Duration::from_micros(200 + 60 * (j % 17)));
             } else {
                 std::hint::spin_loop();
             }
